@@ -95,7 +95,24 @@ class C01(C03):
         cyclopropene_me = _mol([('C', 0, False)] * 4, [(0, 1, 1), (0, 2, 1), (2, 3, 1), (3, 0, 2)])
         toluene = _mol([('C', 0, False)] + [('C', 0, True)] * 6,
                        [(0, 1, 1)] + [(1 + i, 1 + (i + 1) % 6, 1.5) for i in range(6)])
-        return [
+        # a polycycle cut into four parts with several cut bonds per pair of parts (A-Cf 3, Cf-D 2): the base graph is a
+        # multigraph-like K4 fragment whose listings put two ring markers with DIFFERENT order symbols on one node,
+        # opened and closed in every arrangement (seed C01-11: a stale ring-bond symbol in the base-graph reader)
+        cage = _mol([('C', 0, False), ('C', 0, False), ('N', 0, False), ('C', 0, False), ('C', 0, False), ('N', 0, False),
+                     ('C', 0, False), ('C', 0, False)],
+                    # 0=A 1=B 2=D 3..7 = c1..c5 (C C N C C)
+                    [(0, 3, 1), (0, 4, 1), (0, 5, 1), (0, 1, 1), (3, 4, 1), (4, 5, 1), (5, 6, 1), (6, 7, 1), (2, 6, 1),
+                     (2, 7, 1), (2, 1, 1), (1, 7, 1)])
+        frs = ['{#A=[$a1][$a2][>a3]C[$ab],#B=[$ab]C([$bc])[<bd],#D=[$d1][>d2]N[>bd],'
+               '#Cf=C[$a1]C[$a2]N[<a3]C[$d1]C[<d2][$bc]}',
+               '{#A=C([$ab])([>a3])([$a2])[$a1],#B=[<bd]C([$ab])[$bc],#D=N([>bd])([>d2])[$d1],'
+               '#Cf=[$bc]C([<d2])C([$d1])N([<a3])C([$a2])C[$a1]}']
+        bases = ['{[#B]([#A]#1)([#D]=2)[#Cf]12}', '{[#B]([#A]#1)([#D]=2)[#Cf]21}', '{[#A]#1[#B]([#D]=2)[#Cf]12}',
+                 '{[#Cf]#1=2[#B]([#A]1)[#D]2}', '{[#D]=1[#B]([#A]#2)[#Cf]12}', '{[#B]([#A]#1)([#Cf]=21)[#D]2}',
+                 '{[#A]#1[#B]([#Cf]=21)[#D]2}', '{[#Cf]#1=2[#B]([#D]2)[#A]1}', '{[#A]#1[#B]([#Cf]1=2)[#D]2}']
+        cage_cases = [{'s': b + '.' + f, 'single': '{[#M]}.{#M=C123CC1N2C4C5C3N45}', 'mol': cage, 'ncuts': 8}
+                      for f in frs for b in bases]
+        return cage_cases + [
             # descriptor after a ring digit that carries a ring-bond symbol (DESIGN 5 row 12)
             {'s': '{[#A][#B]}.{#A=C=1[$a]CC1,#B=[$a]C}', 'single': '{[#M]}.{#M=C=1(C)CC1}', 'mol': cyclopropene_me,
              'cutinfo': {'0-1': [[0, '$a1', 3, '$a1']]}},
